@@ -25,6 +25,7 @@ def rx_prefix_bytes(a):
 class C06(PropBase):
     id = 'C06'
     partial_passes = 0.25
+    rx_only_passes = 0.4
     lean_modules = ['Isotp.Props.C06']
     theorems = []
     rule = ('(a) clean stream of 2..6 frames x anomaly kind (11 kinds: wrong SN, unexpected CF, unexpected FC, interrupting SF, interrupting FF, FF_DL '
